@@ -515,3 +515,14 @@ M("c08-inputs-before-outputs", "C08", "R08.5", BS,
 M("c10-session-kept-or", "C10", "R10.6", MGR, "            if current_time < timeout_at and\n            not inventory_batch_handled(p)]", "            if current_time < timeout_at or\n            not inventory_batch_handled(p)]")
 M("c20-ipv6-host-stored", "C20", "R20.6", RP, "            ipv4_mapped = announced_peer.ip_address.ipv4_mapped\n            if ipv4_mapped is None:\n                continue  # IPv6? Ain't nobody got time for that! (Seriously though, the protocol supports it if needed)\n            host = ipv4_mapped.exploded\n",
   "            ip_address = announced_peer.ip_address\n            host = (ip_address.ipv4_mapped or ip_address).exploded\n")
+
+# ----------------------------------------------------------------------------------------------- value semantics / wiring
+M("c13-tx-eq-inputs-only", "C13", "R13.5", DT, "        return self.inputs == other.inputs and self.outputs == other.outputs", "        return self.inputs == other.inputs")
+M("c03-pubkey-eq-prefix", "C03", "R03.6", SIG, "        return isinstance(other, SECP256k1PublicKey) and self.public_key == other.public_key", "        return isinstance(other, SECP256k1PublicKey) and self.public_key[:32] == other.public_key[:32]")
+M("c09-block-eq-header-only", "C09", "R09.9", DT, "            self.header == other.header and\n            # for valid blocks comparing transactions is superfluous but we don't make that assumption here\n            self.transactions == other.transactions\n", "            self.header == other.header\n")
+M("c09-response-looks-unsolicited", "C09", "R09.9", RP, "            in_response_to, context = prev_header.id, prev_header.context", "            in_response_to, context = 0, prev_header.context")
+M("c10-getdata-reply-unsolicited", "C10", "R09.9", RP, "        self.send_message(data_message, prev_header=header)", "        self.send_message(data_message)")
+M("c10-remove-inventory-wrong-test", "C10", "R10.7", RP, "                if item.hash == hash:\n                    del msg_state.message.items[j]\n                    break", "                if item.hash != hash:\n                    del msg_state.message.items[j]\n                    break")
+M("c19-ctor-swaps-fields", "C19", "R19.7", RP, "        super().__init__(host, port, direction, last_connection_attempt, ban_score)\n\n    def is_time_to_connect", "        super().__init__(host, port, direction, ban_score, last_connection_attempt)\n\n    def is_time_to_connect")
+M("c04-ctor-heads-swapped", "C04", "R04.7", CS, "        self.heads = heads  # hash=>block ... but restricted to blocks w/o children.", "        self.heads = block_by_hash  # hash=>block ... but restricted to blocks w/o children.")
+M("c01-output-eq-value-only", "C01", "R01.12", DT, "        return self.value == other.value and self.public_key == other.public_key", "        return self.value == other.value")
